@@ -294,7 +294,7 @@ fn amax(v: &[f64]) -> f64 {
 }
 // @bound c04_red_: length L (instance), every real vector in ±1e3
 // @claim c04_red_: sum, prod, dot, norm (as norm^2 = sum x_i^2, norm >= 0), inf_norm = max row sum of |.| equal their definitions (R); Vector / Matrix method forms call the same functions
-fn red<const L: usize>() {
+pub fn red<const L: usize>() {
     let x: [f64; L] = inp::arr(0);
     let y: [f64; L] = inp::arr(100);
     let mut i = 0;
